@@ -116,7 +116,7 @@ Proof.
 Qed.
 
 Lemma exp_mhalf : 1 / 2 <= exp (- (1 / 2)).
-Proof. interval. Qed.
+Proof. interval with (i_prec 40). Qed.
 
 Lemma gsquare_inv : forall n y w a, 0 <= a -> (2 ^ n * (a + 3)) * (2 ^ n * (a + 3)) <= W ->
   - (1 / 2) <= 2 ^ n * w <= 1 / 2 ->
